@@ -275,6 +275,15 @@ for _axes in AXES:
             t = h.np.sin(aj) if repetition else h.np.cos(aj)
             h.assume(h.any([h.abs(t) > eps, t == 0]))
             R0 = h.fn(TF + ".euler_matrix")(ai, aj, ak, axes)
+            # lemma (polynomial identity): the quantity euler_from_matrix takes the root of
+            firstaxis, parity, _, _ = tf._AXES2TUPLE[axes]
+            i = firstaxis
+            j = tf._NEXT_AXIS[i + parity]
+            k = tf._NEXT_AXIS[i - parity + 1]
+            if repetition:
+                h.check("lemma:sy^2=sin^2", h.eq(R0[i, j] * R0[i, j] + R0[i, k] * R0[i, k], t * t), lemma=True)
+            else:
+                h.check("lemma:cy^2=cos^2", h.eq(R0[i, i] * R0[i, i] + R0[j, i] * R0[j, i], t * t), lemma=True)
             bi, bj, bk = h.fn(TF + ".euler_from_matrix")(R0, axes)
             R1 = h.fn(TF + ".euler_matrix")(bi, bj, bk, axes)
             h.check("same-matrix", h.eq(R1, R0))
